@@ -29,6 +29,7 @@ def run(chk, repo):
     chk.rule("C10-W4", "groups are adjusted on copies only; move_items pops from a deep copy", 2)
     chk.attempt(w1, chk, op)
     chk.attempt(w2, chk, op)
+    chk.attempt(w2_defaults, chk, op)
     chk.attempt(w3, chk, op)
     from .common_rules import stateless_constructs
     chk.attempt(stateless_constructs, chk, repo, "C05-F8")
@@ -149,6 +150,32 @@ def w2(chk, op):
         default = fi.param_default(name)
         chk.require(not bad, "C10-W2", op.where(fi), f"{name} is only unpacked/read (its default is the shared literal {short(default, 20) if default is not None else None})",
                     f"{name} is mutated or aliased: {bad[:3]} - the caller's dict (or the shared mutable default) changes between opens", key=f"{fi.key}:{name}")
+
+
+def w2_defaults(chk, op):
+    """every function on the open path: a parameter whose default is a mutable object created once at definition time
+    (dict / list / set literal, comprehension, constructor call) is never mutated or stored - otherwise what one open
+    leaves in it is seen by the next"""
+    repo = op.repo
+    n = 0
+    for k in sorted(op.reach):
+        fi = op.g.funcs[k]
+        a = getattr(fi.node, "args", None)
+        if a is None:
+            continue
+        pos = [x.arg for x in a.posonlyargs + a.args]
+        defaults = dict(zip(pos[len(pos) - len(a.defaults):], a.defaults))
+        defaults.update({p_.arg: d for p_, d in zip(a.kwonlyargs, a.kw_defaults) if d is not None})
+        for name, d in defaults.items():
+            if not isinstance(d, (ast.Dict, ast.List, ast.Set, ast.ListComp, ast.DictComp, ast.SetComp)) and not (isinstance(d, ast.Call) and norm(d.func) in ("dict", "list", "set", "OrderedDict", "defaultdict")):
+                continue
+            n += 1
+            bad = [short(node, 60) for kind, root, target, node in effects.stores(repo, fi) if root == name]
+            returned = [short(r, 40) for r in fi.own_nodes() if isinstance(r, ast.Return) and isinstance(r.value, ast.Name) and r.value.id == name]
+            chk.require(not bad, "C10-W2", op.where(fi), f"parameter {name} (mutable default {short(d, 12)}) is not mutated",
+                        f"parameter {name} has the mutable default {short(d, 12)}, created once for all calls, and is mutated ({bad[:2]}{'; returned: ' + returned[0] if returned else ''}): "
+                        f"entries written during one open are still there for the next", key=f"{fi.key}:{name}:mutable-default")
+    chk.count("mutable_defaults_on_open_path", n)
 
 
 def w3(chk, op):
